@@ -6,7 +6,11 @@ EncDigitallySigned, EncSCTList, EncCertificateChain, EncPrecertChainEntry, LeafH
 parses; the JSON messages of 4.1 / 4.3), MCRFC6962Wire.tla (field values at the boundaries, mutated
 encodings).  TLC checks the model-level laws and exports every case; harness/c04 executes each case
 against the repository's types and functions (TestReplay) and feeds the entry parsers real
-certificates encoded by the independent encoders of harness/ref (TestRealEntries).
+certificates encoded by the independent encoders of harness/ref (TestRealEntries).  Two families of sibling entry
+points are dimensions of the case space: the builders of the stored leaf (StoredLeaf / ExtraForm: ExtraDataForChain,
+BuildLogLeaf, ExtraDataForChainHash, BuildLogLeafWithChainHash, and both issuance-chain modes of a real ctfe.Instance)
+and the readers of an SCT list (ListFromCert / SCTsFromCert: the list on its own and inside the extension of a
+certificate, through the x509 / x509util parsers, DER and PEM).
 
 spec/codec/EntryOfChain.tla (on Precert.tla): the entry RFC 6962 3.1 / 3.2 prescribes for a chain of real
 certificates - whose key is hashed, whose name and key identifier the TBSCertificate carries, how the validity is
@@ -35,6 +39,15 @@ ASSUME = [
     "named deviation JSONEntry: entry type 32768 (experimental add-json) is accepted by the raw TLS codec and refused by "
     "the signature input and by the entry parsers",
     "unasserted: what the entry parsers do with a MerkleTreeLeaf whose version byte is not v1 (the raw codec is asserted)",
+    "named clauses of the stored-leaf builders: ChainHashStore (ExtraDataForChainHash / BuildLogLeafWithChainHash write "
+    "opaque issuance_chain_hash<0..256>, alone or after pre_certificate - storage-private, not in the RFC); "
+    "NoHashNoReference (BuildLogLeafWithChainHash without a hash writes the RFC structure with an empty chain); "
+    "ServedIsRFC (whatever the issuance-chain mode keeps, get-entries serves CertificateChain / PrecertChainEntry); "
+    "the value of the side store's key is unasserted (only the shape of the reference)",
+    "SCT lists inside a certificate: the carrier is an end-entity certificate issued by std crypto/x509 under a two-level "
+    "CA; the extension value is one OCTET STRING, the same followed by a byte, a SEQUENCE, or absent; an entry point that "
+    "returns a certificate or SCTs with a nil error promises the complete parse - a non-fatal error counts as an error; "
+    "what a certificate parser leaves in Certificate.SCTList next to an error is unasserted",
     "SHA-256 is the standard library's",
     "entries from real certificates (EntryOfChain.tla): certificates are DER as a conforming CA (std crypto/x509) writes "
     "them - validity through 2049 as UTCTime, GeneralizedTime before 1950 and from 2050; years {1949, 1950, 1999, 2000, "
@@ -68,6 +81,22 @@ def run(ctx, replay=None):
     cases = r.records.get("CASE", [])
     if len(cases) < 200:
         raise Infra("TLC exported only %d cases" % len(cases))
+    # the entry-point dimensions must all be there: builder x form of the stored leaf (alone and behind the front end),
+    # the ways an SCT list sits in a certificate x the verdicts
+    forms = {(c["builder"], c["form"], len(c["certs"]) if c["builder"] in ("ExtraDataForChain", "BuildLogLeaf") else c["hash"]["present"])
+             for c in cases if c["kind"] == "logleaf"}
+    need = {(b, "rfc", n) for b in ("ExtraDataForChain", "BuildLogLeaf") for n in (0, 1, 3)} | {
+        ("ExtraDataForChainHash", "hash", True), ("ExtraDataForChainHash", "hash", False),
+        ("BuildLogLeafWithChainHash", "hash", True), ("BuildLogLeafWithChainHash", "rfc", False)}
+    if not need <= forms:
+        raise Infra("stored-leaf cases do not cover %s" % sorted(need - forms, key=str))
+    fes = {(c["mode"], c["isPre"], c["n"], c["storedform"]) for c in cases if c["kind"] == "frontend"}
+    if len(fes) != 10 or {f[3] for f in fes} != {"rfc", "hash"}:
+        raise Infra("front-end cases do not cover both modes: %s" % sorted(fes, key=str))
+    wraps = {(w["wrap"], w["list"]["ok"], w["scts"]["ok"]) for c in cases if c["kind"] == "sctlist" for i in c["ins"] for w in i["carried"]}
+    if not {("octet", True, True), ("octet", True, False), ("octet", False, False), ("octet+trail", False, False),
+            ("notoctet", False, False), ("absent", True, True)} <= wraps:
+        raise Infra("SCT-list cases do not cover the ways a list sits in a certificate: %s" % sorted(wraps, key=str))
     ctx.exhaustive = True
     ctx.log("cases: %d structures, %d byte strings" % (len(cases), sum(len(c.get("ins", [])) for c in cases)))
     path = ctx.write_ndjson("cases.ndjson", cases)
